@@ -289,32 +289,39 @@ def mk_var(typ, typed):
     return v
 
 
-def given_value(acls, pname, default, opname, n_results):
-    """A distinctive, non-default value for a keyword parameter of annotation class ``acls``."""
+def given_value(acls, pname, default, opname, n_results, variant=0):
+    """A distinctive, non-default value for a keyword parameter of annotation class ``acls`` (``variant`` > 0: another one,
+    used by the random patterns so that a constant-emitting constructor cannot pass)."""
     from spox import Tensor
 
     if acls == "int":
+        if variant:
+            return 5 if default == 2 else 2
         return 4 if default == 3 else 3
     if acls == "float":
+        if variant:
+            return -2.5 if default == 1e-3 else 1e-3  # 1e-3 is not exactly representable: rounding to float32 is exercised
         return 0.8125 if default == 0.4375 else 0.4375
     if acls == "str":
-        return "given " + pname
+        return ("other " if variant else "given ") + pname
     if acls == "ints":
-        return (3, 1, 2)
+        return (7,) if variant else (3, 1, 2)
     if acls == "floats":
-        return (0.25, -1.5)
+        return (1e-3, 3.0, -0.0) if variant else (0.25, -1.5)
     if acls == "strs":
-        return ("a " + pname, "b")
+        return ("z",) if variant else ("a " + pname, "b")
     if acls == "tensor":
-        return np.array([[1, 2, 3]], dtype=np.int32)
+        return np.array([0.5, -1.0], dtype=np.float32) if variant else np.array([[1, 2, 3]], dtype=np.int32)
     if acls == "dtype":
         try:
             same = default is not None and default is not inspect.Parameter.empty and np.dtype(default) == np.float64
         except Exception:  # noqa: BLE001
             same = False
+        if variant:
+            return np.uint8
         return np.int32 if same else np.float64
     if acls == "type":
-        return Tensor(np.int64, (3,))
+        return Tensor(np.float32, (2, 2)) if variant else Tensor(np.int64, (3,))
     if acls == "callable":
         def fn(*ins):
             if opname == "Loop":
@@ -376,7 +383,7 @@ def call_once(ctx, pat, mode, attempt):
     kwargs, given = {}, []
     for pname, acls, _opt, default in ctx.kw:
         if pname in pat["attrs"] or default is inspect.Parameter.empty:
-            val = given_value(acls, pname, default, ctx.opname, max(1, pat["varlen"]))
+            val = given_value(acls, pname, default, ctx.opname, max(1, pat["varlen"]), pat.get("variant", 0))
             kwargs[pname] = val
             given.append((pname, render_given(val, ctx.schema_attr_type.get(pname), pname, acls)))
     attempt["args"], attempt["given"] = render_args(args_desc), given
@@ -484,12 +491,12 @@ def patterns(ctx, rng=None, n_random=0):
     opt_attrs = [n for n, _a, _o, d in ctx.kw if d is not inspect.Parameter.empty]
     pats, seen = [], set()
 
-    def add(label, opts, varlen, attrs):
-        key = (tuple(sorted(opts)), varlen if has_var else 1, tuple(sorted(attrs)))
+    def add(label, opts, varlen, attrs, variant=0):
+        key = (tuple(sorted(opts)), varlen if has_var else 1, tuple(sorted(attrs)), variant if attrs or ctx.kw else 0)
         if key in seen:
             return
         seen.add(key)
-        pats.append({"label": label, "opts": frozenset(opts), "varlen": varlen, "attrs": frozenset(attrs)})
+        pats.append({"label": label, "opts": frozenset(opts), "varlen": varlen, "attrs": frozenset(attrs), "variant": variant})
 
     add("defaults", [], 1, [])
     for r in range(1, len(opt_inputs) + 1):
@@ -509,7 +516,7 @@ def patterns(ctx, rng=None, n_random=0):
         for t in range(n_random):
             oi = [n for n in opt_inputs if rng.random() < 0.5]
             oa = [n for n in opt_attrs if rng.random() < 0.5]
-            add(f"random{t}", oi, rng.randrange(4), oa)
+            add(f"random{t}", oi, rng.randrange(4), oa, variant=1)
     return pats
 
 
